@@ -381,6 +381,18 @@ func genDistr(g *Gen, n int, faults bool) {
 			g.r.Shuffle(len(subs), func(i, j int) { subs[i], subs[j] = subs[j], subs[i] })
 			g.count("config/shuffled")
 		}
+		if !dust && sc%5 == 2 {
+			// directed shape: one address listed under both bech32 spellings as two destinations:
+			// two records (and two store keys), one recipient
+			other := vaddr(77)
+			subs = []gSub{{name: "twospell", sources: []gAcc{{distrtypes.Main, ""}}, primary: gAcc{distrtypes.BaseAccount, other}, burn: big.NewInt(0)}}
+			subs[0].shares = append(subs[0].shares, struct {
+				name  string
+				share *big.Int
+				dest  gAcc
+			}{"upper", bigOf("333333333333333333"), gAcc{distrtypes.BaseAccount, strings.ToUpper(other)}})
+			g.count("shape/two-spellings-destinations")
+		}
 		emitDistrConfig(g, subs)
 		g.emit("d.setparams")
 		// inflow targets: main, module and base sources
@@ -470,6 +482,34 @@ func genDistrUpd(g *Gen, n int) {
 		g.emit("d.setparams")
 		g.emit("d.params")
 		mainAddr := authtypes.NewModuleAddress(distrtypes.DistributorMainAccount).String()
+		if sc%3 == 0 {
+			// directed shape: the all-upper-case bech32 spelling of an address is the same account -
+			// the main account as BASE_ACCOUNT (must be rejected like its lower-case spelling) and one
+			// address listed under both spellings as two destinations (two records, one recipient)
+			up := strings.ToUpper(mainAddr)
+			g.emit("d.new")
+			g.emit("d.sub upmain 0 %s", gAcc{distrtypes.ModuleAccount, "green_energy_booster_collector"}.tok())
+			g.emit("d.src %s", gAcc{distrtypes.Main, ""}.tok())
+			if g.chance(0.5) {
+				g.emit("d.src %s", gAcc{distrtypes.BaseAccount, up}.tok())
+			} else {
+				g.emit("d.share upshare 100000000000000000 %s", gAcc{distrtypes.BaseAccount, up}.tok())
+			}
+			g.emit("d.update full gov")
+			g.emit("d.params")
+			other := vaddr(77)
+			g.emit("d.new")
+			g.emit("d.sub twospell 0 %s", gAcc{distrtypes.BaseAccount, other}.tok())
+			g.emit("d.src %s", gAcc{distrtypes.Main, ""}.tok())
+			g.emit("d.share upper 333333333333333333 %s", gAcc{distrtypes.BaseAccount, strings.ToUpper(other)}.tok())
+			g.emit("d.update full gov")
+			g.emit("d.params")
+			for b := 0; b < 3; b++ {
+				g.emit("d.credit %s [uc4e=%d]", mainAddr, 1+g.intn(1000))
+				g.emit("d.bb")
+			}
+			g.count("shape/upper-case-bech32")
+		}
 		if sc%3 == 2 {
 			// directed shape: share names must be unique across the whole list INCLUDING the implicit
 			// "<name>_primary" names - here an earlier sub-distributor uses a later one's primary name
